@@ -10,12 +10,13 @@ props = [c['property_id'] for c in json.load(open(os.path.join(V, 'MANIFEST.json
 names = sys.argv[1:] or sorted(f[:-5] for f in os.listdir(BD) if f.endswith('.diff'))
 
 
-def check(p):
-    r = subprocess.run([os.path.join(V, 'bin', 'check'), p, '--tier', 'quick', '--no-evidence'], capture_output=True, text=True)
-    keys = [l.strip() for l in r.stdout.splitlines() if l.startswith('  ') and ' @ ' in l]
-    if r.returncode not in (0, 1):
-        keys.append('INFRA: ' + r.stdout[-400:])
-    return p, r.returncode, keys
+def check_all():
+    """all properties' quick rules on /repo as it stands (one compilation, shared fact base)"""
+    r = subprocess.run([sys.executable, '-m', 'rsv.check_all', '--repo', '/repo'], capture_output=True, text=True, cwd=V)
+    try:
+        return json.loads(r.stdout)
+    except Exception:
+        return {'_infra': ['check_all failed: ' + (r.stderr or r.stdout)[-300:]]}
 
 
 st = subprocess.run(['git', '-C', '/repo', 'status', '--porcelain', '--untracked-files=no'], capture_output=True, text=True).stdout
@@ -30,11 +31,9 @@ for n in names:
         print(n, 'does not apply')
         continue
     try:
-        with ThreadPoolExecutor(8) as ex:
-            res = list(ex.map(check, props))
+        alarms = check_all()
     finally:
         subprocess.run(['git', '-C', '/repo', 'checkout', '--', '.'], check=True)
-    alarms = {p: keys for p, rc, keys in res if rc != 0}
     results[n] = alarms
     print(n, 'SILENT' if not alarms else 'ALARM ' + json.dumps(alarms)[:600])
 json.dump(results, open(res_path, 'w'), indent=1)
